@@ -346,15 +346,32 @@ impl Run {
         let mut known_hits = 0;
         let fails: Vec<Failure> = self.stats.fails.values().cloned().collect();
         let mut reported = vec![];
+        // at most MAX_REPORTED violations are confirmed by replay and listed one by one (a change
+        // that breaks everything produces 10^5 signatures; replaying each twice would take hours);
+        // the rest are counted. Failures matching a known finding are always processed.
+        const MAX_REPORTED: usize = 40;
+        let mut unlisted = 0u64;
         for f in &fails {
+            let is_known = known.iter().any(|k| k.property == self.prop && k.status == "known" && k.matcher == f.sig);
+            if !is_known && violations >= MAX_REPORTED {
+                unlisted += 1;
+                continue;
+            }
             // replay discipline: the same descriptor must fail the same way twice more
             let r1 = replay(&f.case);
-            let r2 = replay(&f.case);
+            // a witness found by a free-running (non-exhaustive, supplementary) pass is a real
+            // observation against a sound oracle but not a schedule: its replay repeats the pass
+            // and need only fail once in two attempts
+            let free = f.case.get("free_running").is_some();
+            let r2 = if free && r1.is_err() { r1.clone() } else { replay(&f.case) };
             let ok = match (&r1, &r2) {
                 (Err((s1, d1)), Err((s2, d2))) => s1 == s2 && d1 == d2 && *s1 == f.sig,
                 _ => false,
             };
-            if !ok {
+            if !ok && free {
+                println!("NOTE: {}: the free-running pass observed {:?} ({}); repeating the pass did not observe it again — reported as observed", self.prop, f.sig, f.detail);
+            }
+            if !ok && !free {
                 machinery(&format!(
                     "{}: failure not reproducible on replay (uncontrolled nondeterminism?) sig={} first={:?} replay1={:?} replay2={:?} case={}",
                     self.prop, f.sig, f.detail, r1, r2, f.case
@@ -375,6 +392,10 @@ impl Run {
             println!("  case:      {}", short(&f.case));
             violations += 1;
             reported.push(json!({"sig": f.sig, "detail": f.detail, "replay": path}));
+        }
+        if unlisted > 0 {
+            println!("NOTE: {}: {} further failing signatures are not listed one by one (first {} confirmed by replay and listed above)", self.prop, unlisted, MAX_REPORTED);
+            violations += unlisted as usize;
         }
         let wall = self.elapsed();
         let mut cov = Map::new();
